@@ -387,7 +387,7 @@ impl EncodingCodes {
 //@@ ret Result<EncodingCodes, Error>
 //@@ subst `Error::InvalidFormatCode` => `Error::InvalidFormatCode` rule=optional
 //@@ spec
-    ensures r is Ok ==> r->Ok_0 as u8 == value,                                                                 // [C05.format-code.table] a byte is accepted as a format code only if it is that code's value
+    ensures r is Ok ==> r->Ok_0 as u8 == value,                                                                 // [C05.format-code.table] [C03.rt.decoder-premise] a byte is accepted as a format code only if it is that code's value
         amqp_ctor(value) ==> r is Ok,                                                                          // [C05.format-code.complete] every constructor of the AMQP 1.0 primitive type system (and 0x00) is recognised
 //@@ end
 }
@@ -577,7 +577,7 @@ impl<R: Read> Deserializer<R> {
         final(self).elem_format_code == old(self).elem_format_code, final(self).handed == old(self).handed, final(self).reader.wf(),
         (match r {
             Some(Ok(c)) => old(self).reader.unread().len() > 0 && c as u8 == old(self).reader.unread()[0] && final(self).reader.unread() =~= old(self).reader.unread().skip(1)
-                && final(self).reader.consumed() == old(self).reader.consumed() + 1,                      // [C05.format-code.table]
+                && final(self).reader.consumed() == old(self).reader.consumed() + 1,                      // [C05.format-code.table] [C03.rt.decoder-premise]
             Some(Err(_)) => true,
             None => old(self).reader.unread().len() == 0 && final(self).reader.unread() =~= old(self).reader.unread(),
         }),
@@ -618,7 +618,7 @@ impl<R: Read> Deserializer<R> {
         (match r {
             Some(Ok(s)) => old(self).reader.unread().len() >= 1 && old(self).reader.unread().len() >= 1 + old(self).reader.unread()[0]
                 && utf8(s@) =~= old(self).reader.unread().subrange(1, 1 + old(self).reader.unread()[0] as int)
-                && final(self).reader.unread() =~= old(self).reader.unread().skip(1 + old(self).reader.unread()[0] as int),   // [C05.str8.decoding] one size octet, then exactly that many octets of UTF-8
+                && final(self).reader.unread() =~= old(self).reader.unread().skip(1 + old(self).reader.unread()[0] as int),   // [C05.str8.decoding] [C03.rt.decoder-premise] one size octet, then exactly that many octets of UTF-8
             Some(Err(_)) => true,
             None => old(self).reader.unread().len() == 0,
         }),
@@ -641,7 +641,7 @@ impl<R: Read> Deserializer<R> {
         (match r {
             Some(Ok(s)) => old(self).reader.unread().len() >= 4 && old(self).reader.unread().len() >= 4 + sp_be32(old(self).reader.unread().subrange(0, 4))
                 && utf8(s@) =~= old(self).reader.unread().subrange(4, 4 + sp_be32(old(self).reader.unread().subrange(0, 4)) as int)
-                && final(self).reader.unread() =~= old(self).reader.unread().skip(4 + sp_be32(old(self).reader.unread().subrange(0, 4)) as int),   // [C05.str32.decoding] four size octets (big-endian), then exactly that many octets of UTF-8
+                && final(self).reader.unread() =~= old(self).reader.unread().skip(4 + sp_be32(old(self).reader.unread().subrange(0, 4)) as int),   // [C05.str32.decoding] [C03.rt.decoder-premise] four size octets (big-endian), then exactly that many octets of UTF-8
             Some(Err(_)) => true,
             None => false,
         }),
@@ -672,7 +672,7 @@ impl<R: Read> Deserializer<R> {
     ensures
         final(self).reader.wf(),
         r is Ok ==> var_decoded(0xa1, 0xb1, old(self).reader.unread()) == Some(utf8(r->Ok_0@))
-            && final(self).reader.unread() =~= old(self).reader.unread().skip(var_consumed(0xa1, old(self).reader.unread())),   // [C05.str.decoding] str8-utf8 and str32-utf8 are both read by the AMQP layout: constructor, size, exactly that many octets of UTF-8, nothing more consumed
+            && final(self).reader.unread() =~= old(self).reader.unread().skip(var_consumed(0xa1, old(self).reader.unread())),   // [C05.str.decoding] [C03.rt.decoder-premise] str8-utf8 and str32-utf8 are both read by the AMQP layout: constructor, size, exactly that many octets of UTF-8, nothing more consumed
         old(self).reader.reliable() && var_decoded(0xa1, 0xb1, old(self).reader.unread()) is Some
             && (exists|c: Seq<char>| utf8(c) == var_decoded(0xa1, 0xb1, old(self).reader.unread())->Some_0) ==> r is Ok,                  // [C05.str.every-variant-accepted] whichever width variant the peer chose
 //@@ end
@@ -698,7 +698,7 @@ impl<R: Read> Deserializer<R> {
     ensures
         final(self).reader.wf(),
         r is Ok ==> var_decoded(0xa3, 0xb3, old(self).reader.unread()) == Some(utf8(r->Ok_0@))
-            && final(self).reader.unread() =~= old(self).reader.unread().skip(var_consumed(0xa3, old(self).reader.unread())),   // [C05.symbol.decoding]
+            && final(self).reader.unread() =~= old(self).reader.unread().skip(var_consumed(0xa3, old(self).reader.unread())),   // [C05.symbol.decoding] [C03.rt.decoder-premise]
         old(self).reader.reliable() && var_decoded(0xa3, 0xb3, old(self).reader.unread()) is Some
             && (exists|c: Seq<char>| utf8(c) == var_decoded(0xa3, 0xb3, old(self).reader.unread())->Some_0) ==> r is Ok,                  // [C05.symbol.every-variant-accepted]
 //@@ end
@@ -714,7 +714,7 @@ impl<R: Read> Deserializer<R> {
     ensures
         final(self).reader.wf(),
         r is Ok ==> var_decoded(0xa0, 0xb0, old(self).reader.unread()) == Some(r->Ok_0@)
-            && final(self).reader.unread() =~= old(self).reader.unread().skip(var_consumed(0xa0, old(self).reader.unread())),   // [C05.binary.decoding]
+            && final(self).reader.unread() =~= old(self).reader.unread().skip(var_consumed(0xa0, old(self).reader.unread())),   // [C05.binary.decoding] [C03.rt.decoder-premise]
         old(self).reader.reliable() && var_decoded(0xa0, 0xb0, old(self).reader.unread()) is Some ==> r is Ok,                              // [C05.binary.every-variant-accepted]
 //@@ end
 }
@@ -778,7 +778,7 @@ impl<R: Read> Deserializer<R> {
         final(self).handed@ is Some ==> ({
             let u = eff_unread(*old(self));
             let h = final(self).handed@->Some_0;
-            &&& compound_header(u) == Some((h.len, h.count))                                                     // [C05.compound.header-decoding] list0/list8/list32/array8/array32: the body length and count handed on are the ones the AMQP layout defines (size minus the count field, minus the element constructor for a non-empty array)
+            &&& compound_header(u) == Some((h.len, h.count))                                                     // [C05.compound.header-decoding] [C03.rt.decoder-premise] list0/list8/list32/array8/array32: the body length and count handed on are the ones the AMQP layout defines (size minus the count field, minus the element constructor for a non-empty array)
             &&& h.kind == (if u[0] == 0xe0 || u[0] == 0xf0 { 0int } else { 1int })
             &&& h.count <= 65536 || u[0] == 0xc0                                                                 // [C04.compound.count-capped] 32-bit counts are capped before anything iterates or allocates by them
             &&& (h.kind == 0 ==> h.count <= h.len + 5)                                                           // [C04.array.count-bounded-by-size] an array cannot announce more elements than its size field covers
@@ -808,7 +808,7 @@ impl<R: Read> Deserializer<R> {
             let u = eff_unread(*old(self));
             let h = final(self).handed@->Some_0;
             &&& (u[0] == 0x45 || u[0] == 0xc0 || u[0] == 0xd0)
-            &&& compound_header(u) == Some((h.len, h.count)) && h.kind == 1                                     // [C05.compound.header-decoding]
+            &&& compound_header(u) == Some((h.len, h.count)) && h.kind == 1                                     // [C05.compound.header-decoding] [C03.rt.decoder-premise]
             &&& h.count == len                                                                                   // [C05.tuple.arity] a fixed-arity sequence is accepted only with exactly that many elements
         }),
 //@@ end
@@ -833,7 +833,7 @@ impl<R: Read> Deserializer<R> {
             let u = eff_unread(*old(self));
             let h = final(self).handed@->Some_0;
             &&& (u[0] == 0xc1 || u[0] == 0xd1)
-            &&& compound_header(u) == Some((h.len, h.count)) && h.kind == 2                                     // [C05.compound.header-decoding] map8/map32
+            &&& compound_header(u) == Some((h.len, h.count)) && h.kind == 2                                     // [C05.compound.header-decoding] [C03.rt.decoder-premise] map8/map32
             &&& h.count <= 65536 || u[0] == 0xc1                                                                 // [C04.compound.count-capped]
         }),
 //@@ end
